@@ -388,6 +388,14 @@ func TestRAC_C07(t *testing.T) {
 			runLightClient(res, h, mask, 0, false)
 		}
 	}
+	// a large forest: 65 536 leaves in one block (leaf 0, 1 and 40 remembered), then deletions next to them and a few
+	// additions crossing the power of two, then a block with 40 additions remembering the 36th
+	{
+		big := racHistory{{Adds: 65536}, {Dels: []uint64{1, 41}, Adds: 3}, {Dels: []uint64{65536}, Adds: 40}}
+		n++
+		res.seen("big/" + big.String())
+		runLightClient(res, big, 1|1<<1|1<<40, 0, false)
+	}
 	// adversarial leaf values (see TestRAC_ADV): every history with <= 5 leaves / <= 3 blocks, every mask
 	for _, a := range advAssignments() {
 		racLeaf = a.leaf
